@@ -769,9 +769,9 @@ func VerifC12LiteralRefusal() {
 		defer close(done)
 		switch which {
 		case 0:
-			first = c.Login("u", "p\xff") // 8-bit password: synchronising literal
+			first = c.Login("u\n", "p\xff") // both arguments are synchronising literals; the first is refused
 		case 1:
-			first = c.Create("m\r\n", nil)
+			first = c.Login("u\r", "p") // CR: the first argument is a synchronising literal
 		default:
 			app = c.Append("INBOX", 5, nil)
 			app.Write([]byte("hello"))
@@ -816,5 +816,38 @@ func VerifC12LiteralRefusal() {
 	nd.Assert(c.readResponse() == nil, "client-unusable-after-refused-literal")
 	ok, nerr := vcDone(noop)
 	nd.Assert(ok && nerr == nil, "later-command-does-not-complete-after-refused-literal")
+	// ... including a later command that needs a continuation request of its own: the
+	// server's "+" must reach it (no stale request of the refused command is in the way)
+	done2 := make(chan struct{})
+	var third *Command
+	go func() {
+		defer nd.Recover()
+		defer close(done2)
+		third = c.Login("a", "b\x00")
+	}()
+	before := len(vc.out)
+	for i := 0; i < 400 && len(vc.out) == before; i++ {
+		time.Sleep(time.Millisecond)
+	}
+	for i := 0; i < 5; i++ {
+		time.Sleep(time.Millisecond)
+	}
+	c.mutex.Lock()
+	nreq := len(c.contReqs)
+	c.mutex.Unlock()
+	nd.Assert(nreq == 1, "stale-continuation-request-of-the-refused-command-still-registered")
+	vc.in = append(vc.in, "+ go\r\nT3 OK in\r\n"...)
+	nd.Assert(c.readResponse() == nil, "client-unusable-after-refused-literal")
+	for i := 0; i < 400; i++ {
+		select {
+		case <-done2:
+			i = 400
+		default:
+			time.Sleep(time.Millisecond)
+		}
+	}
+	nd.Assert(c.readResponse() == nil, "client-unusable-after-refused-literal")
+	ok3, err3 := vcDone(third)
+	nd.Assert(ok3 && err3 == nil, "later-literal-command-does-not-complete-after-refused-literal")
 	nd.Reach("refused-literal")
 }
